@@ -49,7 +49,11 @@ SeqCases ==
 Callees == { << >>, <<0>>, P(1) \o P(0) \o <<85>>, <<95, 95, 253>>, <<254>>,
              P(1) \o P(0) \o <<85, 95, 95, 253>>, <<52>> \o P(0) \o <<85>>, <<51>> \o P(0) \o <<85>>,
              <<48>> \o P(0) \o <<85>>, <<97, 32, 1, 255>>, P(2) \o P(0) \o <<93, 90, 80>>,
-             P(7) \o P(0) \o <<82>> \o P(32) \o P(0) \o <<243>> }
+             P(7) \o P(0) \o <<82>> \o P(32) \o P(0) \o <<243>>,
+             <<97, 16, 9, 255>>,                               \* SELFDESTRUCT to a non-existent account (25000 only if it carries ether)
+             <<48, 255>>,                                      \* SELFDESTRUCT to itself
+             P(9) \o P(0) \o <<161>>,                          \* LOG1
+             <<97, 16, 9, 49, 80>> }                           \* BALANCE of a cold address
 PushGas(g) == <<98, g \div 65536, (g \div 256) % 256, g % 256>>       \* PUSH3
 Caller(kind, value, gasArg) ==
   P(32) \o P(0) \o P(0) \o P(0) \o (IF kind \in {241, 242} THEN P(value) ELSE << >>) \o <<97, 16, 2>> \o PushGas(gasArg)
@@ -90,9 +94,10 @@ FramesSane == m.ph = "run" => /\ \A i \in DOMAIN m.fr : m.fr[i].gas >= 0 /\ Len(
                               /\ GasHeld(m) <= m.tx.gas + 2300 * Len(m.fr)
 TotalBal(w) == LET S[k \in 0..Len(c.accts)] == IF k = 0 THEN 0 ELSE S[k - 1] + Bal(w, c.accts[k].addr) IN S[Len(c.accts)]
 TotalPre    == LET S[k \in 0..Len(c.accts)] == IF k = 0 THEN 0 ELSE S[k - 1] + c.accts[k].bal IN S[Len(c.accts)]
-(* ether is conserved up to the burnt base fee (the coinbase is not a pre-state account here) *)
+(* ether is conserved up to the burnt base fee (the coinbase and the self-destruct beneficiary *)
+(* 0x1009 are not pre-state accounts here)                                                    *)
 EtherConserved == m.ph = "end" =>
-   TotalBal(m.w) + Bal(m.w, Coinbase) + m.out.gasUsed * m.tx.baseFee = TotalPre
+   TotalBal(m.w) + Bal(m.w, Coinbase) + Bal(m.w, 4105) + m.out.gasUsed * m.tx.baseFee = TotalPre
 (* a failed transaction changes nothing but the sender's balance and nonce and the coinbase   *)
 FailedRestores == m.ph = "end" /\ ~m.out.ok =>
    \A i \in DOMAIN c.accts : LET a == c.accts[i].addr IN
